@@ -6,7 +6,6 @@ PROPS = {}
 
 NOT_APPLICABLE = {
     "C03": "relational semantics of Insert/Update/Delete/Select::exec over histories: executors (BTreeMap<Vec<Value>,_>, HashSet<Vec<Value>>) plus the cfb container measured out of Kani's reach even on an in-memory container model (25 min / 10 GB for 2 rows); no loop-free kernel carries the property",
-    "C04": "frame condition over the whole Package state before/after a failing call; exists only at Package level on top of cfb and the query executors (measured out of reach, see C03)",
     "C05": "invariant over all reachable table states under Insert/Update::exec; same measured obstacle as C03 (the cell-validity conjunct is decided under C07)",
     "C11": "stream-name packing builds Strings char by char from symbolic chars: measured 18-21 GB OOM for 1-2 symbolic chars and 50 GB in SAT conversion with concrete UTF-8 width; listing/contents/aliasing live in the cfb dependency",
     "C12": "Join::exec/Select::exec need the container and build Table/Column clones per result row; Select::exec of one 2-row table on a model container did not leave symbolic execution in 15 min / 8 GB",
@@ -499,5 +498,25 @@ PROPS["C16"] = {
             "byte-identity of the medium (a whole-file observation).",
     "bounds": "one call from an arbitrary flag state; both finisher states",
     "outside": "Package::open, cfb internals, sequences of read calls (each call is one inductive step)",
+    "assumptions": list(__import__("vlib.mir_protocol", fromlist=["x"]).PROTOCOL_MODELS_DOC),
+}
+
+# ---------------------------------------------------------------- C04 (partial)
+PROPS["C04"] = {
+    "level": "model_checking", "engine": "mir-smt", "mir": True,
+    "technique": "symbolic execution of the MIR of the stream entry points and drop_table with the container as uninterpreted "
+                 "events; z3/cvc5 decide that an argument error is returned before any mutating event",
+    "claim": "A narrow part of the property only: for read_stream, write_stream, remove_stream and drop_table, from any state "
+             "of the dirty flags, an error caused by the arguments (invalid, reserved or unknown name) is returned before any "
+             "creating/removing container call, executor run or table-list change, without arming the finisher; stream names "
+             "are validated as stream names before the container is touched and the container is addressed by one "
+             "stream-style encoding of that name. The hard part of the property -- late failures of create_table (a column "
+             "definition the catalogue cannot store is refused only after the _Columns/_Tables rows were written; visible by "
+             "reading package.rs:609-675) and of batch inserts/updates inside the executors -- is NOT decided: the executors "
+             "and create_table's column loop are out of reach of both engines.",
+    "note": "Trusted: MIR translator, protocol models, z3/cvc5. Outside: Insert/Update/Delete::exec, create_table past its "
+            "argument checks, the frame condition on everything else (rows, summary, saved file).",
+    "bounds": "one call from an arbitrary flag state",
+    "outside": "executors, create_table's catalogue inserts, snapshots of the whole package state",
     "assumptions": list(__import__("vlib.mir_protocol", fromlist=["x"]).PROTOCOL_MODELS_DOC),
 }
